@@ -1,3 +1,10 @@
 chk("C19", "exploration", "runtime monitoring: reference-model (Python set) oracle over an ASan/UBSan harness, exhaustive small core + random",
     "Every insertion sequence of length <=3 over the full range of the small containers and a stratified core of the large ones is executed on the real code under ASan+UBSan and compared with a Python set (has_bits, membership, documented iteration idiom incl. termination); random larger sets cross the native->bitset switch. Held on what was executed; not a proof for longer sequences.",
     "trusted: Python set semantics, h_lib.c glue, gcc sanitizers; iteration order is not judged", "DESIGN.md section 3 C19")
+
+chk("C20", "exploration", "runtime monitoring: permutation/order/stability oracle over ASan harness, all lengths 0..300 + merge-threshold lengths x 8 shapes",
+    "echs_instant_sort/echs_event_sort are run under ASan+UBSan on arrays of every length 0..300, lengths around every block-merge threshold up to 4096 (thorough: up to 600000 to reach the two-buffer path) in eight adversarial shapes; the output must be a permutation, non-decreasing in the documented order and, for events (serial in oid), stable.",
+    "trusted: Python sorted/compare of the 64-bit keys, h_lib.c glue; stability of instants is unobservable (equal elements are identical)", "DESIGN.md section 3 C20")
+chk("C18", "exploration", "runtime monitoring: print->parse identity and spelled-form reference oracle over ASan harness",
+    "dt_strf/dt_strf_ical/idiff_strf output is fed back to dt_strp/idiff_strp (identity oracle) for a dense sample of days x times and durations, and hand-spelled equivalent forms (ISO/basic, Z, ms, +sign, weeks/days/hours/minutes/seconds combinations, values past the 32-bit limits) are compared with values computed in Python; exact-size heap copies let ASan see parser overreads.",
+    "trusted: Python integer arithmetic for the expected values; sub-second durations are a listed known finding", "DESIGN.md section 3 C18")
